@@ -20,6 +20,7 @@ def run(ck, prog, ctx):
     ck.rule("SELECT", "polarity of a filter predicate (DESIGN 3.10)")
     ck.rule("FIELD", "which field is consulted (DESIGN 3.9)")
     ck.rule("KIND", "single-kind bodies (DESIGN 3.3 K1)")
+    ck.rule("ROLE", "the source a union / count iterates (DESIGN 3.4)")
     pv = Prov(prog)
     pvn = Prov(prog, inline=False, bind_closures=False)
     npairs = 0
@@ -164,6 +165,36 @@ def run(ck, prog, ctx):
         else:
             first = {i + (0 if in_modify else 1) for i in inits} if set(incs) == {1} else set()
             ck.ob("SELECT", "categories/count", set(incs) == {1} and first == {1} and src == {"HpoTerm::categories"}, "category counts start at %s%s and grow by %s per member category: the first occurrence counts %s (expected 1), every further one +1" % (sorted(set(inits)), "" if in_modify else " + the increment", sorted(set(incs)), sorted(first) or "?"), where=cg.where())
+
+    # ---------------------------------------------------------------- ROLE: the annotation unions run over ALL members of the set
+    # (not over a derived subset such as child_nodes(): an ancestor's own annotations would be lost)
+    from engines import origins as _origins
+    srcs = {}
+    for name in ("gene_ids", "omim_disease_ids", "orpha_disease_ids"):
+        b = prog.body(S + name)
+        if b is None:
+            continue
+        its = [(bi, t) for bi, t in b.calls() if t.callee.method in ("iter", "into_iter") and t.args]
+        if not its:
+            ck.undecided("ROLE", "members/" + name, "iteration source not recognised", where=b.where())
+            continue
+        kinds = set()
+        for bi, t in its:
+            og = _origins(b, pvn, t.args[0])
+            crate_calls = sorted(o[1].rsplit("::", 1)[-1] for o in og if o[0] == "call" and o[1] in prog.bodies)
+            if crate_calls:
+                kinds.add("the result of %s()" % crate_calls[0])
+            elif any(o[0] == "field" and o[2] == "group" and "HpoSet" in o[1] for o in og) and ("param", 1) in og:
+                kinds.add("self.group")
+            else:
+                kinds.add("?")
+        srcs[name] = kinds
+        if kinds == {"?"}:
+            ck.undecided("ROLE", "members/" + name, "iteration source not recognised", where=b.where())
+        else:
+            ck.ob("ROLE", "members/" + name, kinds == {"self.group"}, "HpoSet::%s unions the annotations of %s" % (name, "every member of the set" if kinds == {"self.group"} else "/".join(sorted(kinds)) + " (expected: of every member, self.group)"), where=b.where(its[0][1].line))
+    if len(srcs) == 3:
+        ck.ob("SIBLING", "members/agree", len({frozenset(v) for v in srcs.values()}) == 1, "gene_ids / omim_disease_ids / orpha_disease_ids iterate %s" % ("the same source" if len({frozenset(v) for v in srcs.values()}) == 1 else "DIFFERENT sources: %s" % {k: sorted(v) for k, v in srcs.items()}))
 
     # ---------------------------------------------------------------- KIND K1
     for name, kind in (("gene_ids", "Gene"), ("omim_disease_ids", "Omim"), ("orpha_disease_ids", "Orpha")):
